@@ -32,8 +32,8 @@ def build(p, seed):
               split_method=p['split_method'], refill_size=p['refill_size'], tuning_metric=p['tuning_metric'],
               classification_mode=p['classification_mode'], use_temperature_tuning=p['tuning'],
               split_temperature=p['split_temperature'])
-    if p['tuning']:
-        kw['temp_tuning_space'] = p['temp_space']
+    if p['tuning'] and p.get('temp_space') is not None:
+        kw['temp_tuning_space'] = p['temp_space']       # None: the library's default candidate list
     return xRFM(**kw)
 
 
@@ -136,6 +136,22 @@ def execute(chunk):
                         # (and thrown away) before the compared one
                         from xrfm import xRFM as _X
                         _X(device='cpu', verbose=False)
+                    if c.get('other_model_fit'):
+                        # ... or an unrelated estimator with its own configured temperature is fitted (with splits and the
+                        # default tuning) earlier in the process
+                        from xrfm import xRFM as _X
+                        od = xc.make_data(c['junk'], 60, p['d'], 'reg1')
+                        import xrfm.xrfm as _xm
+                        grid = sorted(float(t) for t in getattr(_xm, 'DEFAULT_TEMP_TUNING_SPACE', []) if float(t) > 0)[:40]
+                        if len(grid) < 2:
+                            grid = [0.02 * (250.0 ** (i / 23.0)) for i in range(24)]
+                        # configured temperatures between the points of the default grid (geometric midpoints)
+                        mids = [round((a * b) ** 0.5, 6) for a, b in zip(grid[:-1], grid[1:]) if b > a * 1.01][:24]
+                        for t_other in mids:
+                            om = _X(rfm_params=xc.rfm_params('l2', iters=0), max_leaf_size=20, device='cpu', verbose=False, random_state=1,
+                                    split_temperature=t_other, use_temperature_tuning=True)
+                            with quiet():
+                                om.fit(od['X'], od['y'], od['Xv'], od['yv'])
                     m = build(p, p['seed'])
                     states = rng_states()
                     with quiet():
@@ -149,7 +165,7 @@ def execute(chunk):
                         continue
                     for api in out:
                         if out[api] != ref[api]:
-                            res['failures'].append({'signature': f'C17:seed-not-reproducible:{"predict" if api == "pred" else "predict_proba"}',
+                            res['failures'].append({'signature': f'C17:seed-not-reproducible:{"predict" if api == "pred" else "predict_proba" if api == "proba" else "tuning-record"}',
                                                     'detail': f'same random_state={p["seed"]}, consumption {c} vs {p["consumptions"][0]}: '
                                                               f'outputs differ ({out[api][0]}{out[api][1]})'})
                     # model: which generators does the constructor re-seed?
@@ -192,7 +208,7 @@ def execute(chunk):
                     info['histories'].append({'earlier_fits': len(hist), 'earlier_temperatures': temps, 'temperature': m.split_temperature})
                     for api in out:
                         if out[api] != ref[api]:
-                            res['failures'].append({'signature': f'C17:refit-differs-from-fresh:{"predict" if api == "pred" else "predict_proba"}',
+                            res['failures'].append({'signature': f'C17:refit-differs-from-fresh:{"predict" if api == "pred" else "predict_proba" if api == "proba" else "tuning-record"}',
                                                     'detail': f'after {len(hist)} earlier fit(s) (tuned temperatures {temps}) vs fresh: outputs differ; '
                                                               f'final temperature {m.split_temperature} vs {fresh.split_temperature}'})
                     # model: the entry block
@@ -247,6 +263,9 @@ def gen_cases(run):
         dict(split_method='top_pc_agop_on_subset', task='reg2', n=50, diag=True, kernel='l2_high_dim', refill_size=6),
         dict(split_method='random_agop_on_subset', task='reg1', n=70, kernel='lpq', split_temperature=0.3),
         dict(split_method='random_pca', task='bin', n=30, max_leaf_size=40, bandwidth_mode='adaptive'),  # single leaf, adaptive
+        # default candidate list of the temperature tuning (a module-level list shared by every estimator of the process)
+        dict(split_method='top_vector_agop_on_subset', task='reg1', n=90, tuning=True, temp_space=None),
+        dict(split_method='pca', task='bin', n=90, tuning=True, temp_space=None, tuning_metric='brier'),
         # forced splits (number_of_splits): the split counter is per tree and per fit, also when the data would fit one leaf
         dict(split_method='random', task='reg1', n=36, max_leaf_size=40, number_of_splits=2),
         dict(split_method='top_vector_agop_on_subset', task='bin', n=40, max_leaf_size=60, number_of_splits=1, n_trees=2),
@@ -263,6 +282,7 @@ def gen_cases(run):
                 cons.append({'junk': r.randint(0, 10 ** 6), 'py': r.choice([0, 1, 17, 10 ** 4]), 'np': r.choice([0, 3, 999, 10 ** 4]),
                              'torch': r.choice([1, 5, 1000, 10 ** 4])})
             cons[-1]['other_model'] = True
+            cons[-2]['other_model_fit'] = True
             p['consumptions'] = cons
             cases.append(p)
     # (b) histories
